@@ -135,6 +135,8 @@ func (m *Machine) step(fr *frame) {
 	}
 }
 
+var dbgAlloc = os.Getenv("SYMGO_DBGALLOC") != ""
+
 type continuation int
 
 const (
@@ -266,6 +268,11 @@ func (m *Machine) visitInstr(fr *frame, instr ssa.Instruction) continuation {
 
 	case *ssa.Alloc:
 		addr := new(Value)
+		if dbgAlloc {
+			if a, ok := deref(instr.Type()).Underlying().(*types.Array); ok && a.Len() > 128 {
+				fmt.Fprintf(os.Stderr, "big alloc %s in %s\n", instr.Type(), fr.fn)
+			}
+		}
 		*addr = zero(deref(instr.Type()))
 		fr.env[instr] = addr
 
@@ -822,6 +829,9 @@ func (m *Machine) ensureInit(pkg *ssa.Package) {
 				m.runInitFrame(fr)
 			}
 		}()
+		if os.Getenv("SYMGO_INITLOG") != "" {
+			fmt.Fprintf(os.Stderr, "init %s: %d steps\n", pkg.Pkg.Path(), m.steps-saveSteps)
+		}
 		m.initSteps += m.steps - saveSteps
 		m.steps = saveSteps
 	}
